@@ -204,6 +204,71 @@ func genC19(o *Out, rng *rand.Rand, tier string) {
 		out, _ := labelDec(w)
 		o.Emit(map[string]any{"op": "LRT", "names": namesJSON(ns), "wire": B(w), "out": out}, "roundtrip", w, len(ns) > 0)
 	}
+	// encode -> decode through every option that carries names, built with the option's own constructor (an option may
+	// bring an encoder of its own): the wire form is judged by the specification's decoder, the names must come back
+	for i := 0; i < n/2; i++ {
+		ns := randNames(rng)
+		if len(ns) == 0 {
+			continue
+		}
+		via := []string{"v4ds", "v6dsl", "v6fqdn", "v6ntp", "v4mod"}[i%5]
+		if via == "v6fqdn" || via == "v6ntp" {
+			ns = ns[:1]
+		}
+		rec := map[string]any{"op": "LRTV", "via": via, "names": namesJSON(ns), "wire": []int{}, "out": map[string]any{"ok": false, "names": []any{}}}
+		func() {
+			defer func() {
+				if r := recover(); r != nil {
+					rec["out"] = map[string]any{"panic": fmt.Sprint(r), "ok": false, "names": []any{}}
+				}
+			}()
+			l := &rfc1035label.Labels{Labels: append([]string(nil), ns...)}
+			out := map[string]any{"ok": false, "names": []any{}}
+			switch via {
+			case "v4ds", "v4mod":
+				var p *dhcpv4.DHCPv4
+				if via == "v4ds" {
+					p, _ = dhcpv4.New(dhcpv4.WithOption(dhcpv4.OptDomainSearch(l)))
+				} else {
+					p, _ = dhcpv4.New(dhcpv4.WithDomainSearchList(ns...))
+				}
+				q, err := dhcpv4.FromBytes(p.ToBytes())
+				if err != nil {
+					break
+				}
+				rec["wire"] = B(q.Options.Get(dhcpv4.OptionDNSDomainSearchList))
+				if g := q.DomainSearch(); g != nil {
+					out = map[string]any{"ok": true, "names": namesJSON(g.Labels)}
+				}
+			case "v6dsl":
+				w := dhcpv6.OptDomainSearchList(l).ToBytes()
+				rec["wire"] = B(w)
+				if opt, err := dhcpv6.ParseOption(dhcpv6.OptionDomainSearchList, w); err == nil {
+					m := &dhcpv6.Message{}
+					m.AddOption(opt)
+					if g := m.Options.DomainSearchList(); g != nil {
+						out = map[string]any{"ok": true, "names": namesJSON(g.Labels)}
+					}
+				}
+			case "v6fqdn":
+				w := (&dhcpv6.OptFQDN{Flags: 1, DomainName: l}).ToBytes()
+				rec["wire"] = B(w[1:])
+				if opt, err := dhcpv6.ParseOption(dhcpv6.OptionFQDN, w); err == nil {
+					out = map[string]any{"ok": true, "names": namesJSON(opt.(*dhcpv6.OptFQDN).DomainName.Labels)}
+				}
+			default:
+				so := dhcpv6.NTPSuboptionSrvFQDN{Labels: *l}
+				w := so.ToBytes()
+				rec["wire"] = B(w)
+				var back dhcpv6.NTPSuboptionSrvFQDN
+				if err := back.FromBytes(w); err == nil {
+					out = map[string]any{"ok": true, "names": namesJSON(back.Labels.Labels)}
+				}
+			}
+			rec["out"] = out
+		}()
+		o.Emit(rec, "roundtrip-via-"+via, append([]byte(via), []byte(fmt.Sprint(ns))...), true)
+	}
 	// the Labels object: parse, then every single edit, encodings in between
 	for i := 0; i < n; i++ {
 		var in []byte
